@@ -155,8 +155,11 @@ def main(tier, seed, replay=None):
                 texts.append(''.join(rng.choice(ALPHA_SMALL)
                                      for _ in range(rng.randrange(4, 7))))
         else:
-            for cs in itertools.product(ALPHA_SMALL, repeat=k + 2):
-                texts.append(''.join(cs))
+            # (all strings of length k + 2 over 18 characters: every 4th)
+            for j, cs in enumerate(itertools.product(ALPHA_SMALL,
+                                                     repeat=k + 2)):
+                if j % 4 == seed % 4:
+                    texts.append(''.join(cs))
         rep.notes['short_strings'] = len(texts)
         themes = gen.run_themes(['stmt', 'lit', 'slash', 'ctrl'], tier, rep,
                                 jobs=4)
@@ -164,7 +167,7 @@ def main(tier, seed, replay=None):
                                maxnl=1, seed=seed + 19, workers=8)
         rep.add_tlc(r)
         progs = deep + [s for nm in themes for s in themes[nm]
-                        if hash(s.key()) % (150 if tier == 'quick' else 6) == 0]
+                        if hash(s.key()) % (150 if tier == 'quick' else 25) == 0]
         nm = 0
         bases = [concretise(s, seed=rng.randrange(999), pools='rich',
                             gaps=layout_variant(s, rng, 0.15)) for s in progs]
